@@ -23,12 +23,43 @@ mon = sys.monitoring
 TOOL = 3   # sys.monitoring tool id used by the checker
 
 
+_WITH_EXIT: dict = {}
+
+
+def with_exit_offsets(code) -> frozenset:
+    """Offsets at which a LINE event announces the *normal exit* of a with statement (the
+    LOAD_CONST None x3 / CALL 2 sequence that calls __exit__).  CPython only looks at pending
+    signals after calls and at backward jumps / function entry, never between the end of a with
+    body and the call of __exit__, so a KeyboardInterrupt cannot be raised there: these events
+    are not interrupt points."""
+    r = _WITH_EXIT.get(code)
+    if r is None:
+        import dis
+        ins = list(dis.get_instructions(code))
+        offs = set()
+        for i in range(len(ins) - 3):
+            a, b, c, d = ins[i:i + 4]
+            if (a.opname == b.opname == c.opname == 'LOAD_CONST' and a.argval is None and b.argval is None and c.argval is None
+                    and d.opname == 'CALL' and d.arg == 2):
+                offs.add(a.offset)
+            # the exceptional exit: PUSH_EXC_INFO / WITH_EXCEPT_START (calls __exit__ with the exception);
+            # no signal check happens between the raise inside the body and that call either
+            if a.opname == 'PUSH_EXC_INFO' and b.opname == 'WITH_EXCEPT_START':
+                offs.add(a.offset)
+        r = _WITH_EXIT[code] = frozenset(offs)
+    return r
+
+
 class LineInjector:
     """Counts LINE events of code objects accepted by `want(code)` while `active`
     is true; at event number `at` (1-based) raises `exc_factory()`.  at=None only counts."""
 
-    def __init__(self, want: Callable, *, at=None, exc_factory=None, gate: Optional[Callable] = None, second_at=None):
+    def __init__(self, want: Callable, *, at=None, exc_factory=None, gate: Optional[Callable] = None, second_at=None,
+                 sched=None, switch_files: Sequence[str] = ()):
         self.want = want
+        self.sched = sched                  # vmp.TSched: helper threads run under a baton
+        self.switch_files = tuple(switch_files)
+        self.helper_live_at: list = []      # counted main-thread events at which a helper thread was alive
         self.at = at
         self.second_at = second_at
         self.exc_factory = exc_factory
@@ -42,8 +73,21 @@ class LineInjector:
     def _cb(self, code, lineno):
         if not self.want(code):
             return mon.DISABLE
+        sched = self.sched
+        if sched is not None:
+            h = sched.current_helper()
+            if h is not None:
+                sched.helper_point(h, (code.co_qualname, lineno))
+                return None
         if self.gate is not None and not self.gate():
             return None
+        wx = with_exit_offsets(code)
+        if wx and sys._getframe(1).f_lasti in wx:
+            return None
+        if sched is not None and sched.live():
+            if code.co_filename.endswith(self.switch_files):
+                sched.main_point((code.co_qualname, lineno))
+            self.helper_live_at.append(self.count + 1)
         self.count += 1
         self.trail.append(code.co_qualname)
         if self.record_sites:
